@@ -241,6 +241,25 @@ impl BatchSender {
     }
 }
 
+#[cfg(feature = "verif-hooks")]
+impl BatchSender {
+    /// Read-only copy of the queued datagrams with their sequence numbers and
+    /// queue stamps, in queue order (verification projection).
+    pub fn verif_queue(&self) -> Vec<(Vec<u8>, Option<u32>, u64)> {
+        self.queue
+            .iter()
+            .zip(self.sequences.iter())
+            .zip(self.queue_times.iter())
+            .map(|((d, s), t)| (d.to_vec(), *s, *t))
+            .collect()
+    }
+
+    /// Stamp of the last drain (verification projection).
+    pub fn verif_last_flush_ms(&self) -> u64 {
+        self.last_flush_ms
+    }
+}
+
 #[cfg(test)]
 mod tests {
     use super::*;
